@@ -61,7 +61,7 @@ class _Impl:
 
         covmonitor.max_coverage_in_range = counted
 
-    def readselection(self, rs, k, preferred, bridging, limit=400):
+    def readselection(self, rs, k, preferred, bridging, limit=150):
         self.calls[0], self.calls[1] = 0, limit
         out = io.StringIO()
         with contextlib.redirect_stdout(out):
@@ -246,7 +246,7 @@ class Select(SubCheck):
             sel0 = impl.readselection(rs, k, preferred, bridging)
         except _NoResult:
             sel0 = None
-        e.check(sel0 is not None, "readselection does not terminate (coverage monitor consulted more than 400 times for <= 4 reads)", ctx0)
+        e.check(sel0 is not None, "readselection does not terminate (coverage monitor consulted more than 150 times for <= 4 reads)", ctx0)
         # run 2: every traversal of a std::unordered_set in an order chosen by the solver
         cnt = [0]
         policy = [None]
